@@ -130,7 +130,7 @@ func (s *JSchema) AddType(name string, sc schema.Schema) (err error) {
 			return errs.ErrLoadError.F(err)
 		}
 
-		s.Inner.AddNamedType(name, typ.Inner, s.File, 0)
+		s.Inner.AddNamedType(name, typ.Inner, typ.File, 0)
 		s.UserTypeCollection[name] = typ
 	case *regex.RSchema:
 		typSc, err := FromRSchema(typ)
@@ -138,7 +138,7 @@ func (s *JSchema) AddType(name string, sc schema.Schema) (err error) {
 			return err
 		}
 
-		s.Inner.AddNamedType(name, typSc.Inner, s.File, 0)
+		s.Inner.AddNamedType(name, typSc.Inner, typSc.File, 0)
 		s.UserTypeCollection[name] = typ
 	default:
 		return errs.ErrRuntimeFailure.F()
